@@ -806,3 +806,43 @@ print('NOT-REPRODUCED'); sys.exit(0)
 '''
 
 PROBES = PROBES + [("a batching scope left by a refused assignment leaves nothing queued", SCOPES_REPLAY)]
+
+
+CLASS_REF_REPLAY = '''import sys, os, itertools
+sys.path.insert(0, os.environ.get('PYVC_REPO', '/repo'))
+import param
+bad = []
+class Src(param.Parameterized):
+    x = param.Number(7)
+    s = param.String('a')
+class T(param.Parameterized):
+    b = param.Number(0, bounds=(0, 10), allow_refs=True)
+def snapshot(t):
+    return (t.b, dict(t._param__private.refs), len(Src.param.watchers.get('x', {}).get('value', [])) if hasattr(Src.param, 'watchers') else None)
+for kind, mkref in (('class-level Parameter', lambda: Src.param.x), ('bind over a class-level Parameter', lambda: param.bind(lambda v: v, Src.param.x)),
+                    ('rx of a class-level Parameter', lambda: Src.param.x.rx()), ('class-level Parameter with an invalid value', lambda: Src.param.s)):
+    t = T()
+    seen = []
+    t.param.watch(lambda e: seen.append(e.new), 'b')
+    before = (t.b, dict(t._param__private.refs))
+    try:
+        t.b = mkref()
+    except Exception as e:
+        after = (t.b, dict(t._param__private.refs))
+        if after != before or seen:
+            bad.append('assigning a %s raised %s but left value/links %r (were %r), watcher calls %r' % (kind, type(e).__name__, after, before, seen))
+        continue
+    if 'invalid' in kind:
+        bad.append('a %s was accepted' % kind); continue
+    if t.b != 7:
+        bad.append('a %s was accepted but the parameter holds %r' % (kind, t.b))
+    Src.x = 8
+    if t.b != 8:
+        bad.append('linked to a %s: after the class value changed the parameter holds %r' % (kind, t.b))
+    Src.x = 7
+if bad:
+    print('REPRODUCED: ' + bad[0]); sys.exit(1)
+print('NOT-REPRODUCED'); sys.exit(0)
+'''
+
+PROBES = PROBES + [("references that depend on class-level Parameters", CLASS_REF_REPLAY)]
